@@ -10,6 +10,7 @@ use tower::ServiceExt;
 use crate::client::conn::connection::ConnectionError;
 use crate::client::conn::connection::HttpConnection;
 use crate::client::conn::protocol::auto::HttpConnectionBuilder;
+use crate::client::conn::protocol::HttpProtocol;
 use crate::client::conn::transport::tcp::TcpTransport;
 use crate::client::conn::Connection;
 use crate::client::conn::Protocol;
@@ -235,7 +236,8 @@ where
         let key: K = K::try_from(request_parts)?;
         let protocol = self.protocol.clone();
         let transport = self.transport.clone();
-        let http_protocol = request_parts.version.into();
+        let http_protocol = HttpProtocol::for_version(request_parts.version)
+            .ok_or(ConnectionError::UnsupportedVersion(request_parts.version))?;
 
         let connector = Connector::new(transport, protocol, request_parts.clone(), http_protocol);
 
